@@ -613,7 +613,9 @@ fn fix_select_exec_n(s: &mut SelectSpec, o: ExecOpts, allow_with: bool, arity: O
             };
             let wheres: Vec<E> = c.query.wheres.iter().map(|w| if o.portable { portable_expr(w) } else { w.clone() }).collect();
             *c.query = passthrough_select(t, wheres, None);
-            c.cols = vec![];
+            // an explicit column list, when one was generated, names all five columns as the table does (so that the outer statement's
+            // references stay valid and the list is nevertheless written)
+            c.cols = if c.cols.is_empty() { vec![] } else { vec![0, 1, 2, 3, 4] };
             if c.derive {
                 // from_select derives the column list from the select list: every item is aliased with the plain column name, so the
                 // derived list keeps the names the outer statement refers to
